@@ -1,7 +1,7 @@
 SPECIFICATION TSpec
 CONSTANTS
   Accts = {1, 2, 3}
-  Vals = {1, 2}
+  Vals = {1, 2, 3}
   MaxOps = 1000000
   Rich = "rich"
   ClearValRevs = TRUE
